@@ -28,7 +28,7 @@ ASSUMPTIONS = ['both sides are the real offline monitor', 'horizon from RefHoriz
                'operator is present (envelope of F14a)', 'NaN values are compared as equal to NaN']
 REAL = common.REAL_ALL
 STUBS = common.STUBS_ALL
-PROBES = ['horizon_gt_0', 'pure_past', 'dense_time', 'padding_visible_outside_settled_region', 'truncated_to_one_sample', 'bounds_with_explicit_units', 'pastified_after_an_offline_evaluation']
+PROBES = ['horizon_gt_0', 'pure_past', 'dense_time', 'padding_visible_outside_settled_region', 'truncated_to_one_sample', 'bounds_with_explicit_units', 'pastified_after_an_offline_evaluation', 'logs_longer_than_1000_samples']
 INTERLEAVING_MEASURE = 'distinct (time domain, log length, truncation point) tuples'
 ENVELOPE_RULES = ['bounded-op-nonzero-start (F14a) for dense time']
 
@@ -47,7 +47,31 @@ def gen(rng, tier):
     raise RuntimeError('generator cannot leave the envelope')
 
 
+def _gen_long_dense(rng):
+    """two loggers at the same rate, more than a thousand samples each, same first and last stamp - but one of them has
+    a few late samples"""
+    vars_ = ['a', 'b']
+    n = rng.randint(1020, 1200)
+    qa = list(range(0, 2 * n, 2))                 # stamps in quarters: 0, 0.5, 1.0 ...
+    qb = list(qa)
+    for i in rng.sample(range(1, n - 1), rng.randint(1, 6)):
+        qb[i] += 1                                  # a late sample (still before the next one)
+    sa = [[q / 4.0, float(rng.randint(-4, 4))] for q in qa]
+    sb = [[q / 4.0, float(rng.randint(-4, 4))] for q in qb]
+    pa = ['pred', rng.choice(['>=', '<=']), ['var', 'a'], ['const', rng.choice(sg.LATTICE)]]
+    pb = ['pred', rng.choice(['>=', '<=']), ['var', 'b'], ['const', rng.choice(sg.LATTICE)]]
+    ast = rng.choice([[rng.choice(['and', 'or', 'implies']), pa, pb], ['pred', '>=', [rng.choice(['+', '-']), ['var', 'a'], ['var', 'b']], ['const', 0.0]]])
+    if rng.random() < 0.5:
+        ast = [rng.choice(['eventually_b', 'always_b', 'once_b', 'historically_b']), 0, rng.randint(1, 8), ast]
+    percuts = [dict((v, rng.randint(200, 1000)) for v in vars_) for _ in range(3)]
+    percuts += [dict((v, c) for v in vars_) for c in (rng.randint(300, 900), 1000)]
+    return {'dense': True, 'vars': vars_, 'ast': ast, 'signals': {'a': sa, 'b': sb}, 'percuts': percuts, 'long_log': True,
+            'text': common.dense_text(ast), 'cls': 'ct_off'}
+
+
 def _gen(rng, tier):
+    if rng.random() < 0.003:
+        return _gen_long_dense(rng)
     dense = rng.random() < 0.4
     big = tier == 'thorough'
     nv = rng.randint(1, 4 if big else 3)
@@ -155,6 +179,9 @@ def run(sc):
             ffull = D.from_samples(full)
             cuts = []
             inst = sorted(set(t for v in sc['vars'] for t, _ in sig[v]))
+            if sc.get('long_log'):
+                inst = []                       # only the drawn truncation points (a cut at each of 2000 instants is too much)
+                r.probes['logs_longer_than_1000_samples'] += 1
             for T in inst[:-1]:
                 c = dict((v, len([1 for t, _ in sig[v] if t <= T])) for v in sc['vars'])
                 if all(c[v] >= 1 for v in sc['vars']):
@@ -206,6 +233,8 @@ def run(sc):
 
 
 def shrinks(sc):
+    if sc.get('long_log'):
+        return
     if sc.get('prior_factor'):
         c = copy.deepcopy(sc)
         c['prior_factor'] = None
